@@ -1265,6 +1265,14 @@ class FileSet:
                 ]
                 continue
 
+            # Only a sub directory with temporal placeholders can be checked
+            # against the search range (the placeholders of the upper levels
+            # have been checked already):
+            is_temporal = any(
+                p in self._time_placeholder
+                for p in re.findall(r"{(\w+)}", subdir_chunk)
+            )
+
             # The sub directory covers a certain time coverage, we make
             # sure that it is included into the search range.
             start_check = set_time_resolution(
@@ -1282,7 +1290,8 @@ class FileSet:
                 (new_dir, attr)
                 for search_dir in search_dirs
                 for new_dir, attr in self._get_matching_dirs(search_dir, regex)
-                if self._check_placeholders(attr, start_check, end_check)
+                if not is_temporal
+                or self._check_placeholders(attr, start_check, end_check)
             ]
 
         return search_dirs
